@@ -312,7 +312,7 @@ class TransferFrameDataField:
         :return:
         """
         tfdf = cls.__empty()
-        if len(raw_tfdf) < 1:
+        if len(raw_tfdf) < 1 or exact_len < 1:
             raise UslpInvalidRawPacketOrFrameLen
         tfdf.tfdz_contr_rules = (raw_tfdf[0] >> 5) & 0b111
         tfdf.uslp_ident = raw_tfdf[0] & 0b11111
@@ -322,7 +322,7 @@ class TransferFrameDataField:
         if tfdf.should_have_fhp_or_lvp_field(
             truncated=truncated, frame_type=frame_type
         ):
-            if len(raw_tfdf) < 3:
+            if len(raw_tfdf) < 3 or exact_len < 3:
                 raise UslpInvalidRawPacketOrFrameLen
             tfdf.fhp_or_lvop = (raw_tfdf[1] << 8) | raw_tfdf[2]
             tfdz_start = 3
